@@ -12,7 +12,8 @@
 //        grand means -> *= -0.5 -> B B^T -> eigendecomposition(Dense, Largest) -> B^T U / sqrt(sqrt lam)
 //        out: G (L*N) B (L*N) LAM (d) U (L*d) Q (d, sqrt(sqrt lam)) EMB (N*d)
 //   E method N d ratio seed k dist(N*N)                  public API tapkee::embed; method in
-//        lmds | lisomap | mds | isomap ; seed < 0: unseeded (std::random_device)
+//        lmds | lisomap | mds | isomap, optionally followed by ":randomized" (eigen_method = Randomized instead
+//        of Dense); seed < 0: unseeded (std::random_device)
 //        out: PERM p_0..p_{N-1} (the shuffled index vector select_landmarks_random saw; "PERM -" when
 //             no shuffle was observed) then EMB (N*d) | EXC <exception kind>
 //   S N ratio reps seed                                   select_landmarks_random called reps times
@@ -477,6 +478,14 @@ static const char* run_case(const std::string& line)
     {
         const bool recording = mode == "M";
         std::string m = in.word();
+        // optional suffix ":randomized" selects eigen_method = Randomized (default Dense); its Gaussian test
+        // matrix is drawn with std::rand(), seeded below so that a case replays
+        bool randomized = false;
+        if (m.size() > 11 && m.compare(m.size() - 11, 11, ":randomized") == 0)
+        {
+            randomized = true;
+            m.erase(m.size() - 11);
+        }
         if (recording && m != "lmds" && m != "lisomap")
             return "BADCASE";
         IndexType N = in.integer(), d = in.integer();
@@ -498,6 +507,7 @@ static const char* run_case(const std::string& line)
                                         : m == "mds"     ? MultidimensionalScaling
                                                          : Isomap;
         seed_shuffle(seed, N);
+        std::srand(seed >= 0 ? static_cast<unsigned>(seed) : 1u);
         struct rec_guard
         {
             explicit rec_guard(bool on) { c11rec::rec().reset(), c11rec::rec().on = on; }
@@ -505,7 +515,8 @@ static const char* run_case(const std::string& line)
         } guard(recording);
         TapkeeOutput out = run_api(m, data.begin(), data.end(), kernel, distance, features,
                                    (method = meth, target_dimension = d, landmark_ratio = ratio,
-                                    num_neighbors = k, eigen_method = Dense, check_connectivity = false,
+                                    num_neighbors = k, eigen_method = (randomized ? Randomized : Dense),
+                                    check_connectivity = false,
                                     neighbors_method = Brute)); // k-nn search itself is property C02; Brute keeps
                                                                 // non-metric integer tables meaningful
         if ((m == "lmds" || m == "lisomap") && g_perm_seen)
